@@ -226,7 +226,8 @@ fn c15_unlimited_codec_max() {
     assert!(codec.max_frame_length() >= u32::MAX as usize, "no maximum configured: sender limit is only the length field");
     let m: usize = kani::any();
     let c2 = codec_with(Some(m));
-    assert!(c2.max_frame_length() == m, "configured maximum is passed to the codec unchanged");
+    // the builder clamps the limit to what the 4-byte length field can express
+    assert!(c2.max_frame_length() == std::cmp::min(m, u32::MAX as usize), "configured maximum reaches the codec unchanged (up to the length-field range)");
     std::mem::forget(codec);
     std::mem::forget(c2);
 }
